@@ -82,6 +82,12 @@ func runLoaderHistory(ctx context.Context, p *plan.Plan, w *world.World, lg *sut
 			err = s.Unmarshal(text)
 		}
 		if err != nil {
+			// a failed load must not have published anything
+			select {
+			case <-s.Config():
+				w.Rec(world.Ev{Actor: "loader", Kind: "published-despite-error", S: errs(err)})
+			default:
+			}
 			return config.ServerConfig{}, err
 		}
 		return <-s.Config(), nil
